@@ -288,6 +288,35 @@ struct Checker {
         }
     }
 
+    // Witness family: data for which the harness exhibits (exact arithmetic) one line within epsilon of every point the builder is fed,
+    // so the minimum is one segment and a sequential build must emit exactly one — an O(n) oracle that works where the hulls of a
+    // single segment hold more than 2^16 vertices (the exact optimum of check_direct is quadratic there).
+    void check_witness(const std::vector<K> &data, size_t eps, const std::string &desc) {
+        std::string cs = case_of(desc, eps, "seq");
+        run.set_case(cs); run.add(cn.arrays); run.add(cn.nontrivial);
+        verif::reset<K>();
+        std::vector<CS> segs;
+        auto in = [&](size_t i) { return data[i]; };
+        auto out = [&](const CS &s) { segs.push_back(s); };
+        size_t ret = 0;
+        verif::logging = true;
+        try { ret = pgm::internal::make_segmentation(data.size(), eps, in, out); }
+        catch (const std::exception &e) { verif::logging = false; run.violation(cs, std::string("builder threw on valid sorted data: ") + e.what()); return; }
+        verif::logging = false;
+        auto &pts = verif::Log<K>::pts;
+        run.add(cn.points, pts.size()); run.add(cn.segments, segs.size());
+        if (pts.size() < data.size()) { run.violation(cs, "fewer points fed to the builder than there are distinct keys"); return; }
+        if constexpr (!is_float) {
+            // witness: the chord from the first to the last point fed
+            i128 x0 = i128(pts.front().first), y0 = i128(pts.front().second), dx = i128(pts.back().first) - x0, dy = i128(pts.back().second) - y0;
+            for (auto &pt : pts) {
+                i128 d = dy * (i128(pt.first) - x0) - (i128(pt.second) - y0) * dx; if (d < 0) d = -d;
+                if (d > i128(eps) * dx) { run.harness_error("witness family member: the chord is not within epsilon of every point"); return; }
+            }
+            if (ret != 1 || segs.size() != 1) run.violation(cs, "sequential build used " + std::to_string(segs.size()) + " segments although one line (the chord from the first to the last point) is within epsilon of all " + std::to_string(pts.size()) + " points: optimum is 1");
+        }
+    }
+
     // A whole PGMIndex build: every builder call (bottom level, possibly chunked, and every upper level) must be maximal with its own
     // epsilon, and segments_count() must obey the bound of C04.
     template<size_t E, size_t R>
@@ -474,6 +503,15 @@ template<typename K> void run_task(Run &run, Cn &cn, int prop, const Task &t) {
             if (w == t.w_lo + 9) run.sample(ck.case_of("family=" + s.str(), t.eps, "par"));
             ck.family(s, t.eps, w % 16 == 0);
         }
+    } else if (t.kind == 8) {
+        // witness family: gaps shrinking (shape 0) or growing (shape 1) by one per key around 2^28: strictly concave / convex ranks, every
+        // point a hull vertex, yet the chord stays within n^2/2^31 ranks of every point
+        if constexpr (std::is_same_v<K, uint64_t>) {
+            std::vector<K> data; data.reserve(size_t(t.n));
+            uint64_t x = 12345, G = uint64_t(1) << 28;
+            for (long i = 0; i < t.n; ++i) { data.push_back(x); x += (t.seam == 0 ? G - uint64_t(i) : G - uint64_t(t.n) + uint64_t(i)); }
+            ck.check_witness(data, t.eps, "witness=" + std::to_string(t.seam) + ":" + std::to_string(t.n));
+        }
     } else if (t.kind == 7) {
         // hashed irregular keys for every n in a window
         for (long n = t.w_lo; n < t.w_hi && !run.deadline_passed(); ++n) {
@@ -592,6 +630,8 @@ int main(int argc, char **argv) {
             // smooth convex / concave data, epsilon 1024: segments of more than 2^16 points whose hulls keep every point
             // (C03 only: the exact feasibility oracle of C04 is quadratic on hulls of this size)
             if (k == 6 && prop == 3) for (long shape : {0L, 1L}) for (long pp : (thorough ? std::vector<long>{1, 4} : std::vector<long>{1})) { Task t; t.key = k; t.kind = 5; t.eps = 1024; t.n = thorough ? 2500000 : 1500000; t.p = pp; t.seam = shape; t.w_lo = 1; tasks.push_back(t); }   // from the origin: segment lengths grow from a few thousand to more than 2^17 points
+            // witness family (C04): one segment whose hulls hold 66,000 .. 131,100 (thorough 300,000) vertices, optimum known to be 1
+            if (k == 6 && prop == 4) for (long shape : {0L, 1L}) for (auto ne : (thorough ? std::vector<std::pair<long, size_t>>{{66000, 8}, {70000, 64}, {131100, 64}, {300000, 64}} : std::vector<std::pair<long, size_t>>{{66000, 8}, {70000, 64}, {131100, 64}})) { Task t; t.key = k; t.kind = 8; t.eps = ne.second; t.n = ne.first; t.seam = shape; tasks.push_back(t); }
             // hashed irregular keys (duplicates, power-of-two gaps, jumps) for every n in 9..400
             for (size_t e : std::vector<size_t>{1, 2, 8}) for (long n0 = 9; n0 < (thorough ? 1000 : 400); n0 += 49) { Task t; t.key = k; t.kind = 7; t.eps = e; t.w_lo = n0; t.w_hi = std::min<long>(n0 + 49, thorough ? 1000 : 400); tasks.push_back(t); }
             // two runs meeting just before a chunk end
@@ -637,7 +677,7 @@ int main(int argc, char **argv) {
     ev.states_counter = "arrays_segmented"; ev.transitions_counter = prop == 3 ? "point_vs_line_checks" : "maximality_checks_against_exact_oracle";
     ev.nontrivial_counter = "arrays_with_2plus_distinct_keys";
     ev.rule = std::string("every non-decreasing key sequence of length 1..") + std::to_string(N) + " over each 10-value palette, key types u32/i32/u64/i64/u8/i16/long long/unsigned long long" + (prop == 3 ? "/float/double" : "") +
-              ", epsilon 0..3, fed to make_segmentation; seam-window family (n=2^15(+delta), all 4096 six-letter words over {dup,+1,+2,+65536} at every chunk seam) hashed irregular keys for every n in 9..400, epsilon 1/2/8 (for C03 also through builder objects that are reused after reset() or alive two at a time); smooth convex and concave key sets (i^2 and sqrt-shaped, 1.5 million keys) with epsilon 1024 (segments of more than 2^16 points); seam-window members through make_segmentation_par with the chunk count answered by the harness (also as a history 8,1,2,20,3,8,1 of thread counts inside one process; processors = threads, more threads than processors, fewer threads than processors: c = min of the two); block grammar (1 block x rep, 2 blocks) for epsilon in {1,8,64" + (thorough ? ",1024" : "") + "}. " +
+              ", epsilon 0..3, fed to make_segmentation; seam-window family (n=2^15(+delta), all 4096 six-letter words over {dup,+1,+2,+65536} at every chunk seam) hashed irregular keys for every n in 9..400, epsilon 1/2/8 (for C03 also through builder objects that are reused after reset() or alive two at a time); smooth convex and concave key sets (i^2 and sqrt-shaped, 1.5 million keys) with epsilon 1024 (segments of more than 2^16 points); for C04 a witness family (gaps shrinking / growing by one per key: 66,000..131,100 hull vertices in one segment, the chord checked exactly to be within epsilon of every point, so exactly one segment is required); seam-window members through make_segmentation_par with the chunk count answered by the harness (also as a history 8,1,2,20,3,8,1 of thread counts inside one process; processors = threads, more threads than processors, fewer threads than processors: c = min of the two); block grammar (1 block x rep, 2 blocks) for epsilon in {1,8,64" + (thorough ? ",1024" : "") + "}. " +
               (prop == 3 ? "Each point recorded by hook H1 is evaluated against the line reported for its segment (exact 128-bit rational arithmetic for integer keys, long double + stated tolerance for floating keys). "
                          : "Each builder call's partition is compared with the greedy partition computed by an exact rational stabbing-line oracle (pairwise slope bounds), plus the optimum count, the 2*epsilon spacing of segment starts, and every upper-level call inside PGMIndex builds. ") +
               "State = one segmented array; transition = one point checked; non-trivial = at least two distinct keys.";
